@@ -169,6 +169,18 @@ pub fn recover_and_check(image: &Image, dirs: &BTreeSet<PathBuf>, cands: &[Model
     };
     let mut expect = matched.clone();
     if opts.probe {
+        // a WAL that holds (part of) a record spanning several blocks: the first write after the
+        // recovery is itself fragmented, so that a First fragment directly follows whatever the crash
+        // left behind
+        let wal_has_big_record = image.iter().any(|(p, b)| p.extension().map(|e| e == "log").unwrap_or(false) && b.len() >= 32768);
+        if wal_has_big_record {
+            let big: Vec<u8> = (0..40_000u32).map(|i| (i % 251) as u8).collect();
+            if let Err(e) = db.put(WriteOptions::default(), b"probe2".to_vec(), big.clone()) {
+                drop(db);
+                return Err(Violation::new(&c("probe_write_fails"), format!("a large write after recovery fails: {}", e)));
+            }
+            expect.insert(b"probe2".to_vec(), big);
+        }
         let mut b = Batch::new();
         b.add_put(b"probe".to_vec(), b"P1".to_vec());
         b.add_put(keys[0].clone(), b"P2".to_vec());
